@@ -69,6 +69,34 @@ def table(e, atom_list) -> tuple:
     return tuple(out)
 
 
+EXACT_ATOMS = 16
+
+
+def _sampled_assignments(al):
+    """More than EXACT_ATOMS atoms: a complete table is out of reach, so equivalence is *refuted* on a fixed, input-
+    independent family of assignments (all-false, all-true, every one-hot and one-cold vector, every pair-hot vector
+    up to 40 atoms, and 6000 vectors of a fixed linear congruential sequence at densities 1/8, 1/2, 7/8).  A difference
+    found is a real difference; none found is taken as equivalent (sound for alarms, incomplete for misses)."""
+    n = len(al)
+    yield dict.fromkeys(al, False)
+    yield dict.fromkeys(al, True)
+    for i in range(n):
+        yield {a: (j == i) for j, a in enumerate(al)}
+        yield {a: (j != i) for j, a in enumerate(al)}
+    if n <= 40:
+        for i in range(n):
+            for k in range(i + 1, n):
+                yield {a: (j in (i, k)) for j, a in enumerate(al)}
+    state = 0x9E3779B97F4A7C15
+    for r in range(6000):
+        thr = (32, 128, 224)[r % 3]
+        env_ = {}
+        for a in al:
+            state = (state * 6364136223846793005 + 1442695040888963407) & 0xFFFFFFFFFFFFFFFF
+            env_[a] = ((state >> 33) & 0xFF) < thr
+        yield env_
+
+
 def equiv(e1, e2, extra_atoms=()) -> bool:
     al = atoms(e1)
     for k in atoms(e2):
@@ -77,8 +105,8 @@ def equiv(e1, e2, extra_atoms=()) -> bool:
     for k in extra_atoms:
         if k not in al:
             al.append(k)
-    if len(al) > 16:
-        raise ValueError("too many atoms for a truth table")
+    if len(al) > EXACT_ATOMS:
+        return all(evaluate(e1, env_) == evaluate(e2, env_) for env_ in _sampled_assignments(al))
     return table(e1, al) == table(e2, al)
 
 
@@ -89,10 +117,9 @@ def equiv_conj(parts: list, e) -> bool:
         for k in atoms(p):
             if k not in al:
                 al.append(k)
-    if len(al) > 16:
-        raise ValueError("too many atoms for a truth table")
-    for bits in itertools.product((False, True), repeat=len(al)):
-        env_ = dict(zip(al, bits))
+    envs = (_sampled_assignments(al) if len(al) > EXACT_ATOMS else
+            (dict(zip(al, bits)) for bits in itertools.product((False, True), repeat=len(al))))
+    for env_ in envs:
         if all(evaluate(p, env_) for p in parts) != evaluate(e, env_):
             return False
     return True
